@@ -100,7 +100,7 @@ class C34(core.Check):
     GEN = ['gen_vmem']
     PROPS = 'props/C34.v'
     MODEL_IMPORTS = ['gen.Gen_vmem', 'model.VideoMem']
-    QUICK_CASES = 330
+    QUICK_CASES = 200
     THOROUGH_CASES = 3000
     TRUSTED = ['hand model model/VideoMem.v of the pixel packing of base/bytematrix.py (pack_bytes/unpack_bytes), of '
                'the slice assignments in CGA/EGA/Tandy6MemoryMapper.get_memory/set_memory (EGA plane and mask '
@@ -194,19 +194,19 @@ class C34(core.Check):
         c = []
         # K2 / D34a: block starting mid-bank and crossing a bank boundary (SCREEN 1, offset &H1000, &H2000 bytes)
         c.append(self.mk('cga', {}, 1, 0, 3, 4, [['bsave', B8, 0x1000, 0x2000]]))
-        c.append(self.mk('cga', {}, 1, 0, 3, 4, [['bloadgen', B8, 0x1000, 9, 0x2000], ['bsave', B8, 0, 0x4000]]))
+        c.append(self.mk('cga', {}, 1, 0, 3, 4, [['bloadgen', B8, 0x1e00, 9, 0x400], ['bsave', B8, 0x1d80, 0x500]]))
         # start mid-row in bank 0, crossing into bank 1; bank-aligned start in bank 1 crossing the page end
         c.append(self.mk('cga', {}, 1, 0, 4, 4, [['bsave', B8, 8192 - 100, 200]]))
         c.append(self.mk('cga', {}, 1, 0, 4, 4, [['bsave', B8, 0x2000 + 8000 - 20, 8192 - 8000 + 60]]))
         c.append(self.mk('cga', {}, 2, 0, 5, 2, [['bloadgen', B8, 0x1fb0, 4, 200], ['bsave', B8, 0x1fb0, 200]]))
-        c.append(self.mk('hercules', {}, 3, 0, 6, 2, [['bsave', B8, 45, 0x1fff]]))
-        c.append(self.mk('ega', {}, 7, 0, 7, 16, [['bsave', A0, 100, 0x2000]]))
+        c.append(self.mk('hercules', {}, 3, 0, 6, 2, [['bsave', B8, 0x1f00 + 45, 0x200]]))
+        c.append(self.mk('ega', {}, 7, 0, 7, 16, [['bsave', A0, 0x1e00 + 100, 0x300]]))
         c.append(self.mk('ega', {}, 7, 0, 7, 16, [['mask', 5], ['bloadgen', A0, 8000 - 30, 2, 300],
                                                  ['plane', 2], ['bsave', A0, 8000 - 30, 300]]))
         # Tandy mode 6: block starting at an odd address; even start crossing a bank
         c.append(self.mk('tandy', {}, 6, 0, 8, 4, [['bsave', B8, 1, 7]]))
         c.append(self.mk('tandy', {}, 6, 0, 8, 4, [['bload', B8, 161, [255, 0, 255, 255, 0]], ['bsave', B8, 160, 8]]))
-        c.append(self.mk('pcjr', {}, 6, 0, 8, 4, [['bsave', B8, 0x1ffe, 0x2004]]))
+        c.append(self.mk('pcjr', {}, 6, 0, 8, 4, [['bsave', B8, 0x1f02, 0x204]]))
         # text: below the segment (must not alias into the last page), page slack, last page end
         c.append(self.mk('cga', {}, 0, 80, 9, 256, [['poke', 0xb700, 0, 65], ['peek', 0xb700, 0], ['peek', B8, 0x3000]]))
         c.append(self.mk('mda', {}, 0, 80, 9, 256, [['poke', 0xa000, 0, 65], ['peek', 0xb000, 0], ['bsave', 0xafff, 0, 40]]))
@@ -260,12 +260,13 @@ class C34(core.Check):
 
     def rand_len(self, i, rng):
         r = rng.random()
+        big = self.tier == 'thorough'
         if r < 0.35:
             return rng.choice([0, 1, 2, 3, 4, 5, 7, 8])
-        if r < 0.9:
-            return rng.randrange(1, 300)
-        if r < 0.97:
-            return rng.randrange(300, 1500)
+        if r < 0.92:
+            return rng.randrange(1, 200)
+        if r < (0.97 if big else 0.995):
+            return rng.randrange(200, 1200)
         return rng.choice([0x2000, 0x1000, i['page_size'], 0x2000 + rng.randrange(1, 200)])
 
     def gen_cases(self, n):
@@ -319,7 +320,8 @@ class C34(core.Check):
                         ops.append(['bload', seg, off, common.rand_bytes(rng, ln)])
                         kind = 'bload'
                     else:
-                        ops.append(['bloadgen', seg, off, rng.randrange(256), ln])
+                        # long writes are slow in the model (list indexing): cap them
+                        ops.append(['bloadgen', seg, off, rng.randrange(256), min(ln, 2500)])
                         kind = 'bload'
                 hist[kind] = hist.get(kind, 0) + 1
             case = self.mk(ad, opts, scr, w, rng.randrange(256), prange, ops)
